@@ -84,3 +84,12 @@ impl<K: std::hash::Hash + Eq + Clone, V: Clone> PoolWatch<K, V> {
         self.0.subscribe()
     }
 }
+
+#[cfg(feature = "verif")]
+impl<K, V> PoolWatch<K, V> {
+    /// Verification hook: acquires the sender lock that `insert` / `remove` serialise on
+    /// (the inner watch is private to this module, so the accessor has to live here).
+    pub(crate) async fn verif_lock(&self) -> sync::MutexGuard<'_, sync::watch::Sender<Pool<K, V>>> {
+        self.0.lock().await
+    }
+}
